@@ -11,3 +11,4 @@ import GoFlags.Props.C10
 #print axioms GoFlags.C10.ArgValid_modArg
 #print axioms GoFlags.C10.words_fill_fields_in_order
 #print axioms GoFlags.C10.rest_slice_absorbs_all
+#print axioms GoFlags.C10.interleaved_options_do_not_disturb_binding
